@@ -136,7 +136,13 @@ func c11GenRun(r *Rng) string {
 		}
 		pad = " " + Pick(r, []string{"z", "z", "r"}) + fmt.Sprint(n)
 	}
-	return fmt.Sprintf("run %s %s %s %d %s %d %s %s %s%s", method, kind, hdr, ilogs, iout, decl, prog, route, inputs, pad)
+	state := kind
+	if method == "dyn" && kind == "pr" && r.Chance(55) {
+		// the dynamic init returns a state whose TYPE has both Produce and Exchange: still a producer,
+		// on /init, on every continuation and over the pipe alike
+		state = Pick(r, []string{"pr+", "ex+"})
+	}
+	return fmt.Sprintf("run %s %s %s %d %s %d %s %s %s%s", method, state, hdr, ilogs, iout, decl, prog, route, inputs, pad)
 }
 
 // c11GenExhaustive (thorough): every method x declared x input kind x a few cycle shapes, for every
@@ -162,6 +168,9 @@ func c11GenExhaustive(g *Gen) {
 						for _, p := range progs[k] {
 							if k == "pr" {
 								lines = append(lines, fmt.Sprintf("run %s pr 5 1 ok 0 %s 01 -", m, p))
+								if m == "dyn" {
+									lines = append(lines, fmt.Sprintf("run dyn pr+ 5 1 ok 0 %s 01 -", p), fmt.Sprintf("run dyn ex+ 5 1 ok 0 %s 01 -", p))
+								}
 								continue
 							}
 							for _, ik := range []string{"s", "c", "b"} {
